@@ -4,6 +4,8 @@ use ddo::*;
 
 mod gap;
 mod fringe;
+mod models;
+mod parallel;
 
 fn main() {
     let args: Vec<String> = std::env::args().collect();
@@ -16,6 +18,8 @@ fn main() {
         "gap" => gap::replay(&rest),
         "nodup_fringe" => fringe::replay(&rest, true),
         "simple_fringe" => fringe::replay(&rest, false),
+        "par_abort_bounds" => parallel::replay_abort_bounds(&rest),
+        "par_with_nb_threads" => parallel::replay_with_nb_threads(&rest),
         other => { eprintln!("unknown case {other}"); std::process::exit(2) }
     };
     std::process::exit(if ok { 0 } else { 1 });
